@@ -372,13 +372,22 @@ func New(cfg Cfg) *World {
 	w.App.InitChain(abci.RequestInitChain{
 		ChainId:         ChainID,
 		Time:            GenesisTime,
-		ConsensusParams: simapp.DefaultConsensusParams,
+		ConsensusParams: consensusParams(),
 		AppStateBytes:   stateBytes,
 	})
 	w.genesisPending = true
 	w.H = 0
 	w.T = GenesisTime
 	return w
+}
+
+// consensus parameters without a block gas limit (block processing itself is what is under test)
+func consensusParams() *abci.ConsensusParams {
+	cp := *simapp.DefaultConsensusParams
+	blk := *cp.Block
+	blk.MaxGas = -1
+	cp.Block = &blk
+	return &cp
 }
 
 func newApp(cfg Cfg, n *Names) *World {
@@ -399,7 +408,7 @@ func NewFromExport(cfg Cfg, n *Names, appState json.RawMessage, vals []abci.Vali
 	w.App.InitChain(abci.RequestInitChain{
 		ChainId:         ChainID,
 		Time:            t,
-		ConsensusParams: simapp.DefaultConsensusParams,
+		ConsensusParams: consensusParams(),
 		AppStateBytes:   appState,
 		Validators:      vals,
 		InitialHeight:   initialHeight,
